@@ -44,7 +44,7 @@ claimed = {
    design_ref="8.11",
    technique="contract-based deductive verification: view contracts over symbolic slices with Ackermannised selects, ghost event log, loop invariants with pre-state, lock-discipline obligations from SSA"),
  "C13": dict(
-   text="Proved: STLHeader/STLTriangle have the 84/50-byte packed layouts and field order the format requires (from go/types); SaveSTL writes one header carrying uint32(len(mesh)) and then exactly one record per triangle, in order, whose Vertex1..3 are the triangle's vertices component by component and whose Normal is Triangle3.Normal(), then flushes; Normal is unit, perpendicular to both edges and right-handed for non-degenerate triangles; the streaming writer writes the same record per received triangle, counts each once (mod 2^32), and on success flushes, seeks to 0 and rewrites the header with that count; loadSTLBinary maps record i's Vertex1..3 to mesh[i][0..2]. Bytes produced by encoding/binary and float32 rounding are assumed (A1, A6); the ASCII round trip is not_decided.",
+   text="Proved: STLHeader/STLTriangle have the 84/50-byte packed layouts and field order the format requires (from go/types); SaveSTL writes one header carrying uint32(len(mesh)) and then exactly one record per triangle, in order, whose Vertex1..3 are the triangle's vertices component by component and whose Normal is Triangle3.Normal(), then flushes; Normal is unit, perpendicular to both edges and right-handed for non-degenerate triangles; the streaming writer writes the same record per received triangle, counts each once (mod 2^32), and on success flushes, seeks to 0 and rewrites the header with that count; loadSTLBinary maps record i's Vertex1..3 to mesh[i][0..2]. Bytes produced by encoding/binary and float32 rounding are assumed (A1, A6); loadSTLAscii returns one triangle per three 'vertex' lines, in file order and winding, and an error when their number is not a multiple of three (which lines count and how their numbers parse is the external scanner / strconv, A6).",
    design_ref="8.13",
    technique="contract-based deductive verification: per-iteration (body) obligations over a ghost log of external calls recorded by value, loop invariants, SMT (NRA for the normal)"),
  "C14": dict(
